@@ -393,10 +393,30 @@ class Models(object):
                 r = tm.ite(tm.and_(g, c), tm.some(x), r)
             return r
         l, _ = ev.reify(f, 1)
+        if it.op == "iter" and it.a[0].op in ("push", "ite"):
+            return self.find_in(it.a[0], l)
         if it.op == "iter_mut":
             pl = place_of_ref(it.a[0])
             coll = ev.read(pl)
             return make_opt(tm.any_(mk("iter", coll), l), pl.ext(("first", l)).ref())
+        return make_opt(tm.any_(it, l), mk("find_val", it, l))
+
+    def find_in(self, coll, l):
+        """First element of a collection term satisfying l (pushes and joins made explicit)."""
+        if coll.op == "push":
+            inner = self.find_in(coll.a[0], l)
+            c = tm.apply_lam(l, [coll.a[1]])
+            if c is tm.FALSE:
+                return inner
+            return tm.ite(opt_is_some(inner), inner, tm.ite(c, tm.some(_let_fields(coll.a[1])), tm.NONE))
+        if coll.op == "ite":
+            return tm.ite(coll.a[0], self.find_in(coll.a[1], l), self.find_in(coll.a[2], l))
+        if coll.op == "seq":
+            r = tm.NONE
+            for x in reversed(coll.a):
+                r = tm.ite(tm.apply_lam(l, [x]), tm.some(x), r)
+            return r
+        it = mk("iter", coll)
         return make_opt(tm.any_(it, l), mk("find_val", it, l))
 
     def it_position(self, ev, it, f):
@@ -733,6 +753,20 @@ class Models(object):
     def _register(self):
         from . import stdmodels
         stdmodels.register(self)
+
+
+def _let_fields(x):
+    """Name the computed scalar fields of a pushed record: the algebra keeps them as atoms
+    (with their definition attached) instead of expanding large derived expressions."""
+    if x.op != "adt":
+        return x
+    args = list(x.a[:2])
+    for f in x.a[2:]:
+        if isinstance(f, T) and f.op in ("add", "sub", "mul", "div", "ite", "proj", "sum") and tm.size(f) > 40:
+            args.append(mk("let", f))
+        else:
+            args.append(f)
+    return mk("adt", *args)
 
 
 _VOPS = {"add": "add", "sub": "sub", "mul": "mul", "div": "div", "min": "min", "max": "max"}
